@@ -674,7 +674,7 @@ Definition mp_shell (cfg : config) (ps : list pslot) (clock : Z) (i : nat) (c : 
       (* nopBreaker: the request runs once whatever the context, its result comes back, no fallback *)
       let '(ps1, clk1, out, os2, ok1) := body ps0 now os1 in
       (ps1, clk1 + k_dur c, x_res o, os2,
-       ok1 && result_eqb (x_res o) (result_of e out) && (x_req o =? (if is_allow e then 0 else 1)) && (x_fb o =? 0))
+       ok1 && result_eqb (x_res o) (nop_result e out) && (x_req o =? (if is_allow e then 0 else 1)) && (x_fb o =? 0))
     | PLive g p =>
       match k_ctx c with
       | CDone => (ps0, now, x_res o, skipn nskip os1, pc_done g p now o && all_none (firstn nskip os1))
